@@ -36,6 +36,10 @@ class ev(Event):
     pass
 
 
+class ev0(ev):
+    """Same payload, but no component declares a handler for this name."""
+
+
 def _walk(events, fn):
     for e in events:
         fn(e)
@@ -85,7 +89,7 @@ def _ev_strategy(depth):
             'success': st.booleans(), 'failure': st.booleans(),
             'notify': st.sampled_from([False, False, True]),
             'schan': st.sampled_from([None, None, 'x']),
-            'handlers': st.lists(handler_s(children), min_size=1, max_size=SLOTS),
+            'handlers': st.tuples(st.integers(0, 39), st.lists(handler_s(children), min_size=1, max_size=SLOTS)).map(lambda t: t[1] if t[0] else []),      # incl. an event nobody handles
         })
 
     s = event_s(st.just([]))
@@ -130,7 +134,7 @@ class C04(Prop):
         def make(especs):
             out = []
             for es in especs:
-                e = ev(es)
+                e = (ev if es['handlers'] else ev0)(es)      # ev0: an event name nobody has a handler for
                 e.success = es['success']
                 e.failure = es['failure']
                 e.notify = es['notify']
@@ -143,17 +147,19 @@ class C04(Prop):
         class App(BaseComponent):
             def fireEvent(self, event, *channels, **kwargs):
                 name = event.name
+                if name.startswith('ev0_'):
+                    name = 'ev_' + name[4:]
                 if name in ('ev_success', 'ev_failure', 'ev_value_changed', 'ev_done', 'ev_complete'):
                     log.append(('fire:' + name, event.args[0].args[0]['id'] if isinstance(event.args[0], ev) else None))
                 return super().fireEvent(event, *channels, **kwargs)
 
             fire = fireEvent
 
-            @H('ev_success', channel='*')
+            @H('ev_success', 'ev0_success', channel='*')
             def _s(self, event, e, value):
                 log.append(('success', e.args[0]['id'], event.channels))
 
-            @H('ev_failure', channel='*')
+            @H('ev_failure', 'ev0_failure', channel='*')
             def _f(self, event, e, err):
                 log.append(('failure', e.args[0]['id'], err[1].args[0] if err[1].args else None))
 
@@ -327,13 +333,15 @@ class C04(Prop):
                 return bad('success-count', 'event %d: %d success events dispatched (%d fired), expected %d (requested=%s raisers=%r)' % (
                     eid, len(nsucc), len(fsucc), exp_s, es['success'], raisers))
             if exp_s:
-                last = max(k for k, l in enumerate(log) if l[0] in ('run', 'ret', 'yield', 'end') and l[1] == eid)
+                last = max([k for k, l in enumerate(log) if l[0] in ('run', 'ret', 'yield', 'end') and l[1] == eid], default=-1)
                 if fsucc[0] < last:
                     return bad('success-early', 'event %d: success fired before the last handler step' % eid)
                 if es['schan'] and log[nsucc[0]][2] != (es['schan'],):
                     return bad('success-channels', 'event %d: success delivered on %r not %r' % (eid, log[nsucc[0]][2], es['schan']))
             if hands_on_nested:
                 classes.append('handler-returns-nested-Value')
+            if not hs:
+                classes.append('event-without-handlers')
             kinds = {h['kind'] for h in hs}
             if len(kinds) >= 2 and kinds & {'raise', 'gen', 'genraise'}:
                 nontrivial = True
